@@ -101,7 +101,9 @@ func (t *sshTransport) Copy(localPath, remoteName string) error {
 	if t.port != 0 {
 		scpArguments = append(scpArguments, "-P", fmt.Sprintf("%d", t.port))
 	}
-	scpArguments = append(scpArguments, sourceBase, destinationURL)
+	// Terminate option processing explicitly so that neither the source name
+	// nor a destination beginning with a dash can be interpreted as an option.
+	scpArguments = append(scpArguments, "--", sourceBase, destinationURL)
 
 	// Create the process.
 	scpCommand, err := ssh.SCPCommand(context.Background(), scpArguments...)
@@ -160,7 +162,9 @@ func (t *sshTransport) Command(command string) (*exec.Cmd, error) {
 	if t.port != 0 {
 		sshArguments = append(sshArguments, "-p", fmt.Sprintf("%d", t.port))
 	}
-	sshArguments = append(sshArguments, target, command)
+	// Terminate option processing explicitly so that a target beginning with a
+	// dash can't be interpreted as an option.
+	sshArguments = append(sshArguments, "--", target, command)
 
 	// Create the process.
 	sshCommand, err := ssh.SSHCommand(context.Background(), sshArguments...)
